@@ -104,6 +104,9 @@ def play(r, spec, fault, at):
             v.close()
     if fault == "lose-in-handshake":
         spec.lose_in_handshake = r.random() < .5
+        play.n_lih = getattr(play, "n_lih", 0) + 1
+        if play.n_lih % 2 == 1:
+            spec.timeout = None          # without --timeout only the loss itself can end the run
         return drive(r, spec, faults=[], max_steps=40)
     if fault == "silent-in-handshake":
         spec.silent_in_handshake = True
